@@ -215,17 +215,37 @@ def maximal_rules(model, R):
     func = model.func('tools.maximal')
     p_it, p_cmp = func.params[0], func.params[1]
     d = func.defaults()
-    gens = [n for n in walk(func.body) if isinstance(n, ast.GeneratorExp) and isinstance(n.generators[0].iter, ast.Call)
-            and (chain(n.generators[0].iter.func) or [''])[-1] == 'groupby']
+    env = Env(func)
+    from ..astutil import context_of, reaching_value
+
+    def is_input(n):
+        """the parameter itself, or a local bound to set(param)/list(param)/tuple(param)/param"""
+        for _ in range(3):
+            if isinstance(n, ast.Name) and n.id != p_it:
+                v = reaching_value(func, n.id, 10 ** 9) or env.single(n.id)
+                if v is None:
+                    break
+                n = v
+            elif isinstance(n, ast.Call) and isinstance(n.func, ast.Name) and n.func.id in ('set', 'list', 'tuple', 'frozenset') and len(n.args) == 1:
+                n = n.args[0]
+            else:
+                break
+        return name_is(n, p_it)
+
+    gens = []
+    for n in walk(func.body):
+        if isinstance(n, ast.GeneratorExp) and len(n.generators) == 1:
+            it = env.expand(n.generators[0].iter)
+            if isinstance(it, ast.Call) and (chain(it.func) or [''])[-1] == 'groupby':
+                gens.append((n, it))
     if len(gens) != 1:
         R.unknown('MAXIMAL', func, func.node, 'groupby generator', f'{len(gens)} candidates')
         return
-    g = gens[0]
+    g, gb = gens[0]
     gen = g.generators[0]
-    gb = gen.iter
     perm = gb.args[0] if gb.args else None
     ok_perm = (isinstance(perm, ast.Call) and (chain(perm.func) or [''])[-1] == 'permutations' and len(perm.args) == 2
-               and name_is(perm.args[0], p_it) and const(perm.args[1]) == 2)
+               and is_input(perm.args[0]) and const(perm.args[1]) == 2)
     R.check(ok_perm, 'MAXIMAL', func, gb, 'every ordered pair of distinct elements is compared', f'permutations({p_it}, 2)', src(perm))
     keyarg = next((k.value for k in gb.keywords if k.arg == 'key'), gb.args[1] if len(gb.args) > 1 else None)
     kd = d.get(keyarg.id) if isinstance(keyarg, ast.Name) else keyarg
@@ -234,33 +254,44 @@ def maximal_rules(model, R):
     ok_elt = (isinstance(gen.target, ast.Tuple) and len(gen.target.elts) == 2 and name_is(g.elt, gen.target.elts[0].id))
     R.check(ok_elt, 'MAXIMAL', func, g, 'yields only input elements (the group key)', 'item for item, pairs in groupby(...)', src(g.elt))
     ok_f = False
-    if len(gen.ifs) == 1:
+    if len(gen.ifs) == 1 and isinstance(gen.target, ast.Tuple):
         t, neg = strip_not(gen.ifs[0])
         ok_f = (neg and isinstance(t, ast.Call) and name_is(t.func, 'any') and isinstance(t.args[0], ast.Call)
                 and (chain(t.args[0].func) or [''])[-1] == 'starmap' and name_is(t.args[0].args[0], p_cmp)
                 and name_is(t.args[0].args[1], gen.target.elts[1].id))
     R.check(ok_f, 'MAXIMAL', func, g, 'kept iff it dominates no other element', f'if not any(starmap({p_cmp}, pairs))',
-            src(gen.ifs[0]) if gen.ifs else 'no filter')
-    # the short-circuit for < 2 elements returns the elements themselves
-    early = [s for s in func.body if isinstance(s, ast.If) and any(isinstance(b, ast.Return) for b in s.body)]
-    if not early:
-        R.bad('MAXIMAL', func, func.node, 'a single element is returned as is', f'if len({p_it}) < 2: return iter({p_it})',
-              'no short-input exit: permutations(x, 2) of one element is empty, so the only seed is lost')
-    if early:
-        t = early[0].test
-        holds_for_one = None
+            src(gen.ifs[0]) if gen.ifs else 'no filter', strict=True if (gen.ifs and 'any' in src(gen.ifs[0])) or not gen.ifs else None)
+    # which return is reached for a one-element input?  (permutations(x, 2) of one element is empty: the seed would be lost)
+    rets = sorted((n for n in walk(func.body) if isinstance(n, ast.Return) and n.value is not None), key=lambda n: n.lineno)
+
+    def holds(test, n_items):
+        t, neg = strip_not(test)
         if (isinstance(t, ast.Compare) and len(t.ops) == 1 and isinstance(t.left, ast.Call) and name_is(t.left.func, 'len')
-                and name_is(t.left.args[0], p_it) and isinstance(const(t.comparators[0]), int)):
+                and is_input(t.left.args[0]) and isinstance(const(t.comparators[0]), int)):
             k = const(t.comparators[0])
-            holds_for_one = {ast.Lt: 1 < k, ast.LtE: 1 <= k, ast.Eq: 1 == k, ast.Gt: 1 > k, ast.GtE: 1 >= k, ast.NotEq: 1 != k}.get(type(t.ops[0]))
-        if holds_for_one is None:
-            R.unknown('MAXIMAL', func, t, 'a single element is returned as is', src(t))
-        else:
-            R.check(holds_for_one, 'MAXIMAL', func, t, 'a single element is returned as is', f'len({p_it}) < 2 (true for one element)', src(t),
-                    extra={'consequence': 'permutations(x, 2) of one element is empty: the only seed is lost and the traversal yields nothing'})
-        r = [b for b in early[0].body if isinstance(b, ast.Return)][0]
-        ok = isinstance(r.value, ast.Call) and name_is(r.value.func, 'iter') and name_is(r.value.args[0], p_it)
-        R.check(ok, 'MAXIMAL', func, r, 'short inputs are returned unchanged', f'return iter({p_it})', src(r))
+            v = {ast.Lt: n_items < k, ast.LtE: n_items <= k, ast.Eq: n_items == k, ast.Gt: n_items > k, ast.GtE: n_items >= k,
+                 ast.NotEq: n_items != k}.get(type(t.ops[0]))
+            return None if v is None else (v != neg)
+        return None
+    reached = None
+    undecidable = False
+    for r in rets:
+        ctx = context_of(func.body, r) or []
+        vals = [holds(c[1], 1) == c[2] if holds(c[1], 1) is not None else None for c in ctx if c[0] in ('if', 'guard')]
+        if any(v is None for v in vals):
+            undecidable = True
+            break
+        if all(vals):
+            reached = r
+            break
+    if undecidable or reached is None:
+        R.unknown('MAXIMAL', func, func.node, 'a single element is returned as is', 'cannot determine the return reached for a one-element input')
+    else:
+        v = env.expand(reached.value)
+        direct = (isinstance(v, ast.Call) and name_is(v.func, 'iter') and is_input(v.args[0])) or is_input(v)
+        R.decided(direct, 'MAXIMAL', func, reached, 'a single element is returned as is', f'return iter({p_it}) when len({p_it}) < 2',
+                  f'one element reaches: return {src(reached.value)[:80]}',
+                  extra={'consequence': 'permutations(x, 2) of one element is empty: the only seed is lost and the traversal yields nothing'} if not direct else None)
     R.floor('MAXIMAL', 4)
 
 
